@@ -60,6 +60,13 @@
 )]
 
 // Module declaration
+/// A hook point for verification harnesses; expands to nothing without the `verif-hooks` feature.
+macro_rules! verif_point {
+    ($name:expr, $ctx:expr) => {
+        #[cfg(feature = "verif-hooks")]
+        $crate::verif::point($name, $ctx as u64);
+    };
+}
 pub mod application;
 pub mod comprash;
 pub mod cors;
@@ -77,6 +84,8 @@ pub mod shutdown;
 #[cfg(all(feature = "uring", feature = "http3"))]
 mod uring_udp;
 pub mod vary;
+#[cfg(feature = "verif-hooks")]
+pub mod verif;
 pub mod websocket;
 
 use prelude::{chrono::*, internals::*, networking::*, *};
@@ -511,7 +520,9 @@ impl RunConfig {
             for (listener, descriptor) in listeners {
                 let shutdown_manager = Arc::clone(&shutdown_manager);
                 // bind now, so we are listening before a previous instance is told to shut down
+                verif_point!("execute:before-bind", descriptor.port());
                 let listener = listener();
+                verif_point!("execute:bound", descriptor.port());
                 // the listener counts as a connection until it has stopped accepting,
                 // so a shutdown can't complete between an accept and the counting of that connection
                 #[cfg(feature = "graceful-shutdown")]
@@ -655,6 +666,7 @@ async fn accept(
     loop {
         let (stream, addr) = match listener.accept(shutdown_manager).await {
             AcceptAction::Shutdown => {
+                verif_point!("accept:listener-closed", local_addr.port());
                 if first {
                     info!(
                         "Closing listener on port {} with {}",
@@ -727,8 +739,10 @@ async fn accept(
             }
         );
 
+        verif_point!("accept:got-stream", addr.port());
         match descriptor.data.limiter().register(addr.ip()) {
             LimitAction::Drop => {
+                verif_point!("accept:limiter-drop", addr.port());
                 drop(stream);
                 continue;
             }
@@ -743,9 +757,11 @@ async fn accept(
         // The guard uncounts it when the task ends, also if it panics.
         #[cfg(feature = "graceful-shutdown")]
         let connection_guard = shutdown_manager.connection_guard();
+        verif_point!("accept:counted", addr.port());
         let _task = spawn(async move {
             #[cfg(feature = "graceful-shutdown")]
             let _connection_guard = connection_guard;
+            verif_point!("conn:start", addr.port());
             let _result = handle_connection(stream, addr, descriptor, || {
                 #[cfg(feature = "async-networking")]
                 {
